@@ -27,7 +27,10 @@ RULE = (
     'all-negative and mixed-sign data for min/max; probabilities exactly 0.0 / 1.0 for the '
     'categorical cross entropy; Mean / MeanAndVariance / Var data with +inf / -inf among '
     'finite values and no NaN (family statsinf), regrouped into five batchings (as given, '
-    'one batch, row by row, reversed, one accumulator per batch merged). A mismatch is keyed (mechanism) by the input class of the '
+    'one batch, row by row, reversed, one accumulator per batch merged); rankings that '
+    'repeat an id (third audit round: a relevant or an irrelevant id, 1-3 copies next to the '
+    'first occurrence, further down or in front of it, in one or several rows; about 12% of '
+    'the retrieval cases). A mismatch is keyed (mechanism) by the input class of the '
     'case and the position / metric it concerns, never by the value returned. '
     'Cases are drawn from random.Random(f(seed, chunk, index)). '
     'All ~30 derived rates / 17 ranking metrics are compared per case. Non-trivial = at '
@@ -57,7 +60,16 @@ ASSUMPTIONS = [
     'multi-batch accumulation is exercised only where the class index is stable (binary / '
     'indicator input or explicit vocabulary, no k_list); TopKRetrieval multi-batch only '
     'when every batch holds a ranking of >= max(k) items (per-batch k truncation is a C01 finding)',
-    'retrieval rows have items distinct per row; a row may have no prediction or no true '
+    'retrieval: y_true rows have distinct items; y_pred rows have distinct items except in '
+    'the repeated-id input class, where set semantics apply: an item can be retrieved once, '
+    'a repeated id counts at its first occurrence and its later copies are positions that '
+    'retrieve nothing (they still occupy a rank: precision@k divides by len(y_pred[:k])). '
+    'First and foremost the range law is demanded there (every rate but dcg_score in [0, 1], '
+    'key retrieval-repeated-prediction-counted-as-several-hits); a value that stays in range '
+    'and only differs from the set-based definition is keyed separately '
+    '(retrieval-repeated-prediction-value-convention). Both keys require that some ranking '
+    'repeats a RELEVANT id within the top-k concerned; a repeated irrelevant id must change '
+    'nothing. A row may have no prediction or no true '
     'label (never both): its 0 / 0 rates are 0 by the zero-denominator convention of '
     'math_utils.safe_divide, for false_discovery_rate / miss_rate of such a row both 0 '
     '(safe fp / (tp + fp)) and 1 (1 - precision) are accepted; a two-batch run is compared '
@@ -146,6 +158,8 @@ REQUIRED = [
     'stats_int_dtype_cases', 'misc_rreg_offset_cases', 'misc_rreg_int32_cases',
     'misc_xent_closed_interval_cases', 'misc_xent_zero_probability_cases',
     'stats_inf_cases', 'stats_inf_batching_checks',
+    'retr_repeated_id_cases', 'retr_repeated_relevant_id_cases',
+    'retr_repeated_irrelevant_id_cases', 'retr_range_checks',
 ]
 EXHAUSTIVE = {'quick': False, 'thorough': False}
 CHUNK_TIMEOUT_S = {'quick': 240, 'thorough': 3000}
